@@ -16,6 +16,13 @@ RULE = ('T2: Percent.quote/unquote, FormURLEncoded/QueryString encode/decode eva
 	'Wave-4 classes: (7) read-only observers (repr/str/bytes/hash/len/bool/iteration/format, all six comparisons in both directions with URI/bytes/str operands, copy/deepcopy/pickle/URI(u), every attribute, in-tests, dict()/sorted() of the pairs, reads of HEX_MAP and of every octet set) applied to a URI, to a clone, to the object it was cloned from, to the codec classes and to the pair sequence before / after the query is set: same result as an unobserved new object, before and afterwards; '
 	'(8) every member of the families: encode/decode/iterencode/iterdecode/quote/unquote of FormURLEncoded and QueryString with list/tuple/dict/items/generator/list-of-lists data and positional/keyword arguments, Body(application/x-www-form-urlencoded).encode/iterencode/decode, URI.quote/unquote, the query set through setter/dict/generator/query_string/parse/__init__(kwargs|dict|tuple|URI) for URI and all nine scheme classes, composed and parsed again, ==/!= of equal and unequal queries; '
 	'(9) reserved NAMES as data (_charset_, charset, q, boundary, filename, realm, uri, bytes, encoding, ...) with every usual codec name / media type / flag as value next to non-ASCII text, in every position, through both codecs, both charsets, URI.query and an independent sender; every metacharacter (: / ? # @ = & ; , % " + and their escapes) in the pairs while user name, password, path and fragment of the same URI carry them too (query read back, after compose+parse as well; neighbours unchanged by the query). New pair inputs also go through the Coq model (CFormEnc + CFormDec). '
+	'Wave-5 classes (kind w5; facts checked against the case alone: pairs read back, octets read by an independent standard-library reader, same-as-new-object comparisons): (10) the argument object (list of lists, dict, OrderedDict) given to two objects / calls and changed afterwards, results handed out and changed by the caller, an object built from another one (URI(u), tuple, dict, copy, deepcopy, pickle, bytes, join) changed in six ways, then the original changed; '
+	'(11) pairs as list / tuple / lists / iter / generator / map / chain / zip / deque / namedtuple / str subclass / OrderedDict (also re-ordered) / dict / items() for both codecs, URI.query, Body.encode / iterencode; octets as bytes / bytearray / memoryview (a refusal by type is accepted from the decoders, another answer is not), text as str / subclass / object with __str__; '
+	'(12) eleven kinds of refused argument (unencodable text, non-iterable, wrong arity, None / int / bytes members, failing half way, a generator that raises) and refused query_string / parse() / decode() calls on a URI, a URI with another encoding, both codecs, a form Body and Percent: the object afterwards equals itself before and an object that never saw the call, and goes on like it; '
+	'(13) URI.encoding set by a subclass, a subclass with __slots__, assignment on URI, on a subclass after the object exists and on the scheme class x seven ways of getting the query into the object x 16 ASCII-compatible charsets with text that is not ASCII in them; the charset of a form Body given to the constructor / assigned as encoding / as mimetype / after a first encode(), for 25 charsets incl. UTF-16, UTF-7, EBCDIC; '
+	'(14) unsorted, reverse-sorted, non-adjacent duplicate and case-variant names through both codecs, iterencode, Body, URI set / compose+parse / normalize / abspath / join / tuple / dict, mappings whose insertion order is not the sorted one; (15) the assignments that build a URI in five orders, constructor keywords / dict / octets / text / parse() on a used object, Body charset before or after content; '
+	'(16) charsets in which ordinary characters are written with the octets of % + & = ; # ? / @ space etc. (UTF-16 LE/BE, UTF-7, cp037, cp500, HZ, cp932, johab, GB18030, GBK, Shift_JIS, Big5): characters found by direct search for every such octet, at the start / end / alone, and 30 multi-piece texts per charset; '
+	'(17) 2^k and 2^k +- 1 (k = 9..16) octets, escapes, characters in a name / value, pairs, and octets of query string. '
 	'non-trivial = distinct (kind, input) whose output differs from its input or is an error')
 EXHAUSTIVE = {'quick': False, 'thorough': False}
 TRUSTED = ['harness/gen_tables.py t_percent (T1: masks of the Percent.* sets, HEX_MAP, QueryString.INVALID, escape-width probe)',
@@ -247,6 +254,7 @@ def gen_cases(rng, tier):
 		cases.append({'k': 'form_dec', 'qs': rng.random() < 0.5, 'cs': rng.choice(['UTF-8', 'ISO8859-1']), 'd': d.hex()})
 	cases.extend(_gen_classes(rng, big))
 	cases.extend(_gen_wave4(rng, big))   # appended last: every case above is drawn exactly as before
+	cases.extend(_gen_wave5(rng, big))   # (the same: appended after everything else)
 	return cases
 
 
@@ -926,11 +934,15 @@ def _only_safe(e, safe):
 	return True
 
 
-def _tie_terms(qs, cs, ps, enc, back):
-	"""the member's output and read-back through the Coq model: CFormEnc ps -> enc, CFormDec enc -> back"""
-	if len(enc) > 4 * COQ_OCTET_LIMIT or (cs is not None and not _is_utf8(cs) and cs not in CHARSETS_L1):
+def _tie_terms(qs, cs, ps, enc, back, anycs=False):
+	"""the member's output and read-back through the Coq model: CFormEnc ps -> enc, CFormDec enc -> back.
+	anycs (wave 5): any charset - the model works on the charset-encoded octets; for a charset other than UTF-8 it takes every octet string as text, so that an
+	implementation-side decoding error under such a charset is left to the oracle.  back None: the call wrote something and read nothing."""
+	if len(enc) > 4 * COQ_OCTET_LIMIT or (not anycs and cs is not None and not _is_utf8(cs) and cs not in CHARSETS_L1):
 		return None
 	terms = ['CFormEnc %s %s %s' % (B(qs), pairs(_enc_pairs(ps, cs)), X(enc))]
+	if back is None or (anycs and isinstance(back, dict) and not _is_utf8(cs)):
+		return terms
 	if isinstance(back, dict):
 		out = 'DUnicode' if back.get('err') == 'unicode' else 'DInvalid'
 	else:
@@ -1182,6 +1194,8 @@ def observe(c):
 			return _observe_fam(c)
 		if k == 'ro':
 			return _observe_ro(c)
+		if k == 'w5':
+			return _observe_w5(c)
 		if k == 'peek':
 			_observe_cls(c['obs'], bytes.fromhex(c['d']), None)
 			return {'peek': len(c['obs'])}
@@ -1240,7 +1254,7 @@ def coq_case(c, o):
 		if 'err' in o:
 			return None
 		qs = True if k == 'rt_query' else c['qs']
-		return _tie_terms(qs, c.get('cs', 'UTF-8'), c['ps'], o['qs'].encode('utf-8') if k == 'rt_query' else bytes.fromhex(o['enc']), o['back'])
+		return _tie_terms(qs, c.get('cs', 'UTF-8'), c['ps'], o['qs'].encode('utf-8') if k == 'rt_query' else bytes.fromhex(o['enc']), o['back'], c['m'] == 5)
 	if k.startswith('rt_'):
 		return None  # oracle-only kinds
 	if k == 'fam':
@@ -1256,6 +1270,8 @@ def coq_case(c, o):
 		return 'CUtf8 [] false'  # an escaping exception where the model has none: force a disagreement
 	if k in ('seq', 'uq') and 'steps' not in o:
 		return None
+	if k == 'w5':
+		return _coq_w5(c, o)
 	if k == 'seq':
 		terms = [coq_case(st, so) for st, so in zip(c['steps'], o['steps'])]
 		return [t for t in terms if t is not None] or None
@@ -1304,6 +1320,8 @@ def oracle(c, o):
 		return _oracle_fam(c, o)
 	if k == 'ro':
 		return _oracle_ro(c, o)
+	if k == 'w5':
+		return _oracle_w5(c, o)
 	if k == 'seq':
 		first = {}
 		for i, (st, so) in enumerate(zip(c['steps'], o['steps'])):
@@ -1433,7 +1451,7 @@ def nontrivial(c, o):
 	k = c['k']
 	if k in ('seq', 'uq'):
 		return (k, repr(c.get('steps') or c.get('ops')))
-	if k in ('fam', 'ro'):
+	if k in ('fam', 'ro', 'w5'):
 		return (k, repr(sorted(c.items())))
 	if k == 'peek':
 		return None
@@ -1444,6 +1462,1076 @@ def nontrivial(c, o):
 	if k == 'rt_quote' and o.get('enc') == c['d']:
 		return None
 	return (k, c.get('safe'), c.get('d'), repr(c.get('ps')), c.get('cs'), c.get('qs'))
+
+# ---------------------------------------------------------------- wave-5 classes (DESIGN section 8, classes 10-17)
+# (10) aliasing  (11) argument types  (12) refused operations  (13) configuration knobs (URI.encoding, charset of a form Body)  (14) order
+# (15) order of API calls  (16) value-dependent branches: charsets whose octets for ordinary text ARE the metacharacters  (17) lengths 2^k and 2^k +- 1
+# One kind 'w5' with a 'via'.  The observation is a list of facts; what each fact must be is decided by the oracle from the CASE alone:
+#   r   [label, pairs read by the implementation, key of the pair list in the case that it must equal]
+#   dec [label, octets the implementation wrote, charset, key]: read by _ref_parse (standard library only) they must give the pairs; safe characters and %HH only
+#   eq  [label, a, b]: 'same as a new object / same as before / argument unchanged' comparisons
+#   exc [label, exception name or None, 'must-accept' | 'may-refuse']
+#   tie [is QueryString, charset, key, octets, pairs read back (, 'dec')]: the same through the Coq model (CFormEnc + CFormDec; 'dec': the octets are another sender's, CFormDec only)
+# No C0 control / DEL OCTET in any charset-encoded text here (D1 / D21 have their own cases): _w5_clean().
+# charsets in which ASCII octets are ASCII characters: usable as URI.encoding (the URI syntax itself is ASCII)
+W5_URI_CS = ['ISO8859-1', 'cp1252', 'koi8-r', 'iso8859-15', 'iso8859-5', 'iso8859-7', 'cp1251', 'cp437', 'mac-roman', 'gb18030', 'gbk', 'shift_jis', 'big5', 'euc-jp', 'euc-kr', 'UTF-8']
+# NOT used as URI.encoding: UTF-16 / UTF-32 / UTF-7 / EBCDIC (cp037): on the pinned tree URI(b'/p') itself raises InvalidURI under UTF-16/32, the query setter raises
+# UnicodeDecodeError under UTF-7, and under cp037 the query string is not ASCII.  The knob is documented for the charset of the percent-encoded octets; the statement does
+# not speak of URI syntax in a charset that is not ASCII-compatible.  Reported, kept out.  They are used where the charset is an argument of the codec / of the media type.
+W5_WIDE_CS = ['utf-16', 'utf-16-le', 'utf-16-be', 'utf-7', 'cp037', 'cp500', 'hz', 'cp932', 'johab']
+W5_HOWS = ['sub', 'sub_slots', 'assign', 'sub_late', 'scheme']
+W5_SETS = ['set', 'setdict', 'gen', 'setqs', 'parse', 'init', 'str']
+W5_POW2 = [1 << k for k in range(9, 17)]
+REF_QUERY = REF_UNRES + b"!$&'()*+,;=:@/?"     # RFC 3986: query = *( pchar / "/" / "?" )
+W5_META_OCTETS = b' %&+=;#?/@:[]\\|~"<>^`{}$!\'()*,'
+W5_CONTAINERS = ['list', 'tuple', 'lists', 'iter', 'gen', 'map', 'chain', 'zip', 'deque', 'ntuple', 'strsub', 'odict', 'dict', 'ditems', 'odict.rev']
+W5_BAD = ['unencodable', 'int', 'none', 'single', 'triple', 'noneval', 'intval', 'bytespair', 'midway', 'genraise', 'str']
+_W5_ALPHA = {}
+
+
+def _w5_pool():
+	return (list(range(0x21, 0x7f)) + list(range(0xa0, 0x180)) + list(range(0x391, 0x3ca)) + list(range(0x410, 0x450)) + list(range(0x2010, 0x2c00)) + list(range(0x3041, 0x3097))
+		+ list(range(0x4e00, 0x5200)) + list(range(0xac00, 0xac80)) + list(range(0xff01, 0xff5f)) + [0x1f600, 0x10400, 0x2f800, 0x20])
+
+
+def _w5_alpha(cs):
+	"""(characters the charset can express, round-trips and writes without C0 / DEL octets; per ASCII metacharacter octet: non-ASCII characters - or, for charsets that
+	are not ASCII-compatible, any characters - whose encoded form CONTAINS that octet).  Searched directly, class (16)."""
+	if cs not in _W5_ALPHA:
+		plain, special = [], {}
+		for cp in _w5_pool():
+			ch = chr(cp)
+			try:
+				e = ch.encode(cs)
+				if e.decode(cs) != ch or (ch + ch).encode(cs).decode(cs) != ch + ch:
+					continue
+			except (UnicodeError, LookupError):
+				continue
+			if any(x < 0x20 or x == 0x7f for x in e):
+				continue
+			if cp >= 0xa0:
+				plain.append(ch)
+			if e != ch.encode('ascii', 'replace') or cp >= 0x80:
+				for x in set(e):
+					if x in W5_META_OCTETS:
+						special.setdefault(x, []).append(ch)
+		_W5_ALPHA[cs] = (plain, special)
+	return _W5_ALPHA[cs]
+
+
+def _w5_clean(ps, cs):
+	"""names non-empty, every text expressible, round-tripping in Python's codec, and free of C0 / DEL octets in the charset"""
+	try:
+		for a, b in ps:
+			if not a:
+				return False
+			for t in (a, b):
+				e = t.encode(cs or 'ISO8859-1')
+				if e.decode(cs or 'ISO8859-1') != t or any(x < 0x20 or x == 0x7f for x in e):
+					return False
+	except UnicodeError:
+		return False
+	return True
+
+
+W5_ASCII = 'abcxyz019 &=+%;/?#:@~.-_*!'
+
+
+def _w5_ascii(cs):
+	"""the ASCII characters usable as filler under the charset (under UTF-16 every one of them is written with a NUL octet: none)"""
+	return [ch for ch in W5_ASCII if _w5_clean([['n' if _w5_clean([['n', '']], cs) else ch, ch]], cs)]
+
+
+def _w5_text(rng, cs, lo, hi):
+	plain = _w5_alpha(cs)[0]
+	asc = _w5_ascii(cs)
+	out = []
+	for _ in range(rng.randint(lo, hi)):
+		r = rng.random()
+		if not asc or (plain and r < 0.45):
+			out.append(rng.choice(plain))
+		elif r < 0.9 or len(asc) < len(W5_ASCII):
+			out.append(rng.choice(asc))
+		else:
+			out.append(rng.choice(['%20', '%2B', '+', '&amp;', '%E4', '=', ' ']))
+	return ''.join(out)
+
+
+def _w5_pairs(rng, cs, lo=1, hi=3, unique=False):
+	"""pairs in which at least one text is non-ASCII in the charset (where the charset has any such character)"""
+	plain = _w5_alpha(cs)[0]
+	for _ in range(50):
+		ps = [[_w5_text(rng, cs, 1, 3), _w5_text(rng, cs, 0, 3)] for _ in range(rng.randint(lo, hi))]
+		if plain and ps:
+			ps[rng.randrange(len(ps))][rng.randrange(2)] += rng.choice(plain)
+		if _w5_clean(ps, cs) and (not unique or len({p[0] for p in ps}) == len(ps)):
+			return ps
+	return [[plain[0], plain[1]]] if lo else []
+
+
+W5_ORDER = [
+	[['b', '1'], ['a', '2'], ['b', '3'], ['a', '1']],
+	[['z', ''], ['y', ''], ['x', ''], ['m', ''], ['c', ''], ['b', ''], ['a', '']],
+	[['a', '3'], ['a', '2'], ['a', '1'], ['a', '2'], ['a', '3']],
+	[['k', 'v'], ['other', 'x'], ['k', 'v'], ['another', 'y'], ['k', 'v']],
+	[['a', 'z'], ['b', 'y'], ['c', 'x'], ['a', 'w'], ['b', 'v'], ['c', 'u'], ['a', 't']],
+	[['10', 'a'], ['9', 'b'], ['2', 'c'], ['1', 'd'], ['01', 'e'], ['1', 'f']],
+	[['B', '1'], ['a', '1'], ['A', '1'], ['b', '1'], ['ä', '1'], ['a', '1'], ['Ä', '1']],
+	[['x', 'b'], ['x', 'a'], ['y', 'b'], ['y', 'a'], ['x', 'a'], ['x', 'b']],
+	[['n', ''], ['n', 'v'], ['n', ''], ['m', 'v'], ['n', 'v']],
+	[['é', '2'], ['e', '1'], ['é', '1'], ['f', ''], ['e', '2']],
+	[['a b', '1'], ['a+b', '2'], ['a%20b', '3'], ['a b', '4'], ['a&b', '5'], ['a=b', '6'], ['a b', '7']],
+]
+
+
+def _w5_order_lists(rng):
+	out = [ps for ps in W5_ORDER]
+	names = ['n%d' % i for i in range(12)] + ['ä', 'ß', 'Z', '_', '~']
+	for n in (8, 20, 40):
+		ks = rng.sample(names, min(n, len(names)))
+		out.append([[k, ''] for k in sorted(ks, reverse=True)])
+		out.append([[rng.choice(ks[:4]), str(rng.randrange(3))] for _ in range(n)])
+		out.append([[k, str(n - i)] for i, k in enumerate(ks)] + [[k, str(i)] for i, k in enumerate(reversed(ks))])
+	return out
+
+
+def _gen_wave5(rng, big):
+	out = []
+	from httoop import URI   # noqa: F401  (import errors of the tree surface here, as in the other generators)
+	scale = 4 if big else 1
+	bases = ['/p', '', 'p/q;x', '//h/p?x=1#f', '/a/b/../c?old=1', '?', '/p#frag']
+	abs_bases = ['http://example.com/path', 'http://h/p?x=y#f', 'https://u:w@h:8443/a/b?n=1', 'ftp://h/', 'urn:x', 'foo://h/p']
+
+	def w5(via, **kw):
+		kw.update(k='w5', via=via)
+		out.append(kw)
+
+	def base_for(how, i):
+		if how in ('sub', 'sub_slots', 'sub_late'):
+			# a subclass of URI never holds a URI with a scheme: assigning the scheme swaps the object's class for the registered scheme class (or URI) and the
+			# subclass's encoding with it (with __slots__ = () in the subclass; without, the swap raises TypeError: object layout differs).  A C10 matter
+			# (composition by scheme); reported, kept out: subclasses get references without a scheme.
+			return bases[i % len(bases)]
+		if how == 'scheme':
+			return ('http://example.com/path', 'http://h/p?x=y#f', 'http://u@h:81/a/b')[i % 3]
+		return (bases + abs_bases)[i % (len(bases) + len(abs_bases))]
+
+	# (13) the charset knob of a URI: subclass / subclass with __slots__ / assigned on URI / assigned on a subclass after the object exists / assigned on the scheme class,
+	#      x every way the query gets into the object, x ASCII-compatible charsets, with text that is not ASCII in the charset
+	i = 0
+	for cs in W5_URI_CS:
+		for how in W5_HOWS:
+			for st in W5_SETS:
+				if (i % 3 and not big) and cs not in ('ISO8859-1', 'cp1252', 'koi8-r'):
+					i += 1
+					continue
+				ps = _w5_pairs(rng, cs, 1, 3, unique=st == 'setdict')
+				w5('knob', how=how, cs=cs, base=base_for(how, i), set=st, ps=ps, pol=('plain', 'lower', 'mixed', 'all')[i % 4], seed=rng.randrange(1 << 30))
+				i += 1
+	for ps in ([['name', 'café']], [['über', 'straße'], ['x', 'ÿ '], ['Ã©', '']], [['a', 'b'], ['a', 'c']], [['key', 'a&b=c+d%20e f'], ['sp ace', '%'], ['plus+', '=&']],
+			[['é', 'é'], ['Ã©', 'Ã©']], [['n', 'ä' * 300]]):
+		for how in W5_HOWS:
+			for st in ('set', 'parse', 'gen'):
+				for cs in ('ISO8859-1', 'cp1252', 'iso8859-15'):
+					w5('knob', how=how, cs=cs, base=base_for(how, i), set=st, ps=ps, pol='plain', seed=i)
+					i += 1
+	# ... and the same knob for the other text entry points of the object (quote / unquote of one text, str())
+	for cs in W5_URI_CS:
+		for how in W5_HOWS[:3] if not big else W5_HOWS:
+			w5('knob.text', how=how, cs=cs, base=base_for(how, i), texts=[t for p in _w5_pairs(rng, cs, 2, 3) for t in p if t])
+			i += 1
+	# (13) the charset of a form body: media type parameter at construction, assigned afterwards (encoding / mimetype attribute), x charsets incl. UTF-16, UTF-7, EBCDIC
+	for cs in W5_URI_CS + W5_WIDE_CS:
+		for r in range(2 * scale):
+			for how in ('ctor', 'encoding', 'mimetype', 'late'):
+				w5('body.knob', how=how, cs=cs, ps=_w5_pairs(rng, cs), ps2=_w5_pairs(rng, cs))
+	# (16) charsets in which ordinary characters are written with the octets of '%', '+', '&', '=', ' ', ';', '#' ...: every such octet the charset offers,
+	#      at the start / at the end / alone, in names and values, through both codecs (and URI.encoding where the charset is ASCII-compatible); then many multi-piece texts
+	for cs in W5_WIDE_CS + ['gb18030', 'gbk', 'shift_jis', 'big5']:
+		plain, special = _w5_alpha(cs)
+		for x in sorted(special):
+			chars = special[x] if big and len(special[x]) <= 6 else rng.sample(special[x], min(len(special[x]), 6 if big else 2))
+			for j, ch in enumerate(chars):
+				for ps in ([[ch, ch]], [['n' + ch, ch + 'v'], [ch + 'n', 'v' + ch]], [['a', ch + ch], [ch + 'b' + ch, '']]):
+					if not _w5_clean(ps, cs):
+						continue
+					out.append({'k': 'rt_form', 'qs': (x + j) % 2 == 0, 'cs': cs, 'ps': ps, 'm': 5})
+					if cs in W5_URI_CS and j == 0:
+						w5('knob', how=W5_HOWS[x % 5], cs=cs, base=base_for(W5_HOWS[x % 5], x), set=W5_SETS[x % 7], ps=ps, pol='plain', seed=x)
+		pieces = [ch for x in special for ch in special[x]] or plain
+		for r in range(120 if big else 30):
+			ps = [[''.join(rng.choice(pieces) if rng.random() < 0.7 else rng.choice('ab =&+%') for _ in range(rng.randint(1, 4))), ''.join(rng.choice(pieces) for _ in range(rng.randint(0, 4)))] for _ in range(rng.randint(1, 3))]
+			if _w5_clean(ps, cs):
+				out.append({'k': 'rt_form', 'qs': r % 2 == 0, 'cs': cs, 'ps': ps, 'm': 5})
+	# (10) aliasing: the argument object (list of lists, dict, OrderedDict) given to two objects / two calls and changed afterwards; an object built from another
+	#      object's parts, changed; the original changed afterwards
+	for r in range(6 * scale):
+		for cont in ('lists', 'list', 'dict', 'odict'):
+			for entry in ('uri', 'form', 'qs', 'body'):
+				cs = ('UTF-8', 'ISO8859-1', 'cp1252', 'koi8-r')[(r + len(out)) % 4]
+				w5('alias.arg', cont=cont, entry=entry, cs='UTF-8' if entry == 'uri' else cs, ps=_w5_pairs(rng, 'UTF-8' if entry == 'uri' else cs, 2, 4, unique=True), ps2=_w5_pairs(rng, 'UTF-8' if entry == 'uri' else cs))
+	for r in range(3 * scale):
+		for build in ('uri', 'tuple', 'dict', 'copy', 'deepcopy', 'pickle', 'bytes', 'join'):
+			for mut in ('query', 'qs', 'parse', 'normalize', 'dictmut', 'attrs'):
+				w5('alias.obj', build=build, mut=mut, base=(bases + abs_bases)[(r + len(out)) % 13], ps=_w5_pairs(rng, 'UTF-8', 1, 3), ps2=_w5_pairs(rng, 'UTF-8', 1, 3), ps3=_w5_pairs(rng, 'UTF-8', 0, 2) if r else [])
+	# (11) argument types: pair data in every container / one-shot iterator / mapping for every entry point that takes pairs; octets as bytes / bytearray / memoryview;
+	#      text as str / subclass of str / object with __str__ where the entry point converts
+	for r in range(3 * scale):
+		for cont in W5_CONTAINERS:
+			for entry in ('form', 'qs', 'uri', 'body', 'body.iter', 'uri.knob'):
+				cs = 'UTF-8' if entry == 'uri' else ('UTF-8', 'ISO8859-1', 'cp1252', 'koi8-r', 'utf-16', None)[(r + len(out)) % (5 if entry.startswith(('body', 'uri')) else 6)]
+				if entry == 'uri.knob' and cs in ('UTF-8', 'utf-16'):
+					cs = 'iso8859-15'
+				w5('types.pairs', cont=cont, entry=entry, cs=cs, ps=_w5_pairs(rng, cs or 'ISO8859-1', 2, 4, unique=cont in ('odict', 'dict', 'ditems', 'odict.rev')))
+	for r in range(40 * scale):
+		d = bytes(x for x in rbytes(rng, 1, 16) if x >= 0x10)
+		for ty in ('bytes', 'bytearray', 'memoryview'):
+			w5('types.octets', ty=ty, d=d.hex(), safe=rng.choice(SAFE_NAMES), pol=('lower', 'all', 'mixed')[r % 3], seed=rng.randrange(1 << 30))
+		t = _w5_text(rng, 'UTF-8', 1, 6)
+		if _w5_clean([[t, '']], 'UTF-8'):
+			for ty in ('str', 'strsub', 'objstr', 'bytes', 'bytearray', 'memoryview'):
+				# (every fourth: ASCII pairs written without any escape - what a bytearray-taking decoder of the pinned tree accepts)
+				w5('types.text', ty=ty, t=t, ps=_w5_pairs(rng, 'UTF-8') if r % 4 != 3 else [[rng.choice('abc') + '.' + str(r), rng.choice(['x y', '', '-_.~', 'v'])], ['d', '']], pol=('lower', 'all', 'mixed', 'plain')[r % 4], seed=rng.randrange(1 << 30))
+	# (12) a refused operation leaves the object as it was, and the object goes on like one that never saw the refused call
+	for r in range(2 * scale):
+		for bad in W5_BAD + ['qs.int', 'qs.list', 'parse.octets', 'parse.space', 'parse.charset', 'dec.charset', 'dec.type']:
+			for on in ('uri', 'uri.knob', 'form', 'qs', 'body', 'percent'):
+				if on == 'percent' and bad != 'int':
+					continue     # (one case per round: the refused calls are a fixed list)
+				if bad.startswith(('qs.', 'parse.')) and not on.startswith('uri'):
+					continue
+				if bad.startswith('dec.') and on.startswith('uri'):
+					continue
+				cs = 'UTF-8' if on == 'uri' else ('ISO8859-1', 'cp1252', 'koi8-r')[(r + len(out)) % 3] if on == 'uri.knob' else ('UTF-8', 'ISO8859-1', 'koi8-r', 'cp1252')[(r + len(out)) % 4]
+				w5('refuse', on=on, bad=bad, cs=cs, base=(bases + (abs_bases if on == 'uri' else []))[(r + len(out)) % (13 if on == 'uri' else 7)], ps=_w5_pairs(rng, cs), ps2=_w5_pairs(rng, cs))
+	# (14) order: unsorted, duplicates that are not adjacent, reverse-sorted, case variants - through both codecs, a URI (set, compose + parse, normalize, join, copies,
+	#      dict / tuple round trips), mappings whose insertion order is not the sorted one
+	for ps in _w5_order_lists(rng):
+		for cs in ('UTF-8', 'ISO8859-1'):
+			for qs in (False, True):
+				out.append({'k': 'rt_form', 'qs': qs, 'cs': cs, 'ps': ps, 'm': 5})
+		out.append({'k': 'rt_query', 'ps': ps, 'm': 5})
+		for path in ('codec', 'uri', 'uri.knob', 'body'):
+			w5('order', path=path, cs='ISO8859-1' if path == 'uri.knob' else 'UTF-8', base=(bases + abs_bases)[len(out) % 13], ps=ps, unique=len({p[0] for p in ps}) == len(ps))
+	# (15) order of API calls: the same assignments in several orders; constructor argument / attribute / dict / tuple / parse; knob set before or after the object exists
+	for r in range(50 * scale):
+		cs = ('UTF-8', 'ISO8859-1', 'cp1252', 'UTF-8', 'koi8-r')[r % 5]
+		w5('calls', cs=cs, ps=_w5_pairs(rng, cs), ps2=_w5_pairs(rng, cs), perms=[rng.sample(range(6), 6) for _ in range(4)], frag=_w5_text(rng, cs, 0, 2), seg=_w5_text(rng, cs, 1, 2).replace('/', '-'))
+	# (17) lengths 2^k and 2^k +- 1 for k = 9..16: octet strings, escape runs, names, values, numbers of pairs, the whole query string
+	fills = [b'a', b'\xff', b'%', b'a\xe4 ', b'/', b'~\x10', b'+&=']
+	for n0 in W5_POW2:
+		for n in (n0 - 1, n0, n0 + 1):
+			if n in LENS:
+				continue   # (there already)
+			for f in rng.sample(fills, 2):
+				out.append({'k': 'rt_quote', 'safe': rng.choice(SAFE_NAMES + ['DEFAULT', '']), 'd': _fill(f, n).hex()})
+			f = rng.choice(['a', ' ', '&', 'ä', '%', '+'])
+			out.append({'k': 'rt_form', 'qs': n % 2 == 0, 'cs': ('UTF-8', 'ISO8859-1')[(n // 2) % 2], 'ps': [['n', f * n]] if n % 3 else [[f * n, 'v'], ['m', '']]})
+			# ... the ENCODED form has the length: n octets of query string exactly
+			k = n - 2
+			if n <= 16385 or big:
+				out.append({'k': 'rt_query', 'ps': [['n', 'a' * k]]})
+				w5('knob', how=W5_HOWS[n % 5], cs='ISO8859-1', base=base_for(W5_HOWS[n % 5], n), set=W5_SETS[n % 7], ps=[['n', 'ä' * ((k) // 3) + 'a' * (k % 3)]], pol='plain', seed=n)
+			if n <= 4097 or big:
+				ps = [[rng.choice(['a', 'b', 'ä']), rng.choice(['', 'v'])] for _ in range(n)]
+				out.append({'k': 'rt_form', 'qs': n % 2 == 1, 'cs': 'UTF-8', 'ps': ps})
+				out.append({'k': 'rt_query', 'ps': ps})
+			if n <= COQ_OCTET_LIMIT * 2:
+				out.append({'k': 'unquote', 'd': _fill(rng.choice([b'%41', b'%', b'%e4%', b'%2']), n).hex()})
+	return out
+
+
+class _W5Str(str):
+	pass
+
+
+class _W5Obj(object):
+	def __init__(self, t):
+		self.t = t
+
+	def __str__(self):
+		return self.t
+
+
+def _w5_container(cont, ps):
+	"""the pairs in the container type named; every call gives a new object"""
+	import collections
+	import itertools
+	tps = [tuple(p) for p in ps]
+	if cont == 'list':
+		return list(tps)
+	if cont == 'tuple':
+		return tuple(tps)
+	if cont == 'lists':
+		return [list(p) for p in tps]
+	if cont == 'iter':
+		return iter(tps)
+	if cont == 'gen':
+		return (p for p in tps)
+	if cont == 'map':
+		return map(tuple, [list(p) for p in tps])
+	if cont == 'chain':
+		return itertools.chain(tps[:1], iter(tps[1:2]), (p for p in tps[2:]))
+	if cont == 'zip':
+		return zip([p[0] for p in tps], [p[1] for p in tps])
+	if cont == 'deque':
+		return collections.deque(tps)
+	if cont == 'ntuple':
+		NT = collections.namedtuple('Field', 'name value')
+		return [NT(*p) for p in tps]
+	if cont == 'strsub':
+		return [(_W5Str(a), _W5Str(b)) for a, b in tps]
+	if cont == 'odict':
+		return collections.OrderedDict(tps)
+	if cont == 'odict.rev':      # built in reverse, then turned round: insertion order and iteration order differ from what a plain dict of the same items has
+		d = collections.OrderedDict(reversed(tps))
+		for key in [p[0] for p in tps]:
+			d.move_to_end(key)
+		return d
+	if cont == 'dict':
+		return dict(tps)
+	if cont == 'ditems':
+		return dict(tps).items()
+	raise ValueError(cont)
+
+
+def _w5_knob(how, cs):
+	"""(class to instantiate, function to call once the object exists, function that restores everything)"""
+	from httoop import URI
+	meta = type(URI)
+	nothing = lambda: None   # noqa: E731
+	if how == 'default':
+		return URI, nothing, nothing
+	if how == 'sub':
+		return meta('KnobURI', (URI,), {'encoding': cs}), nothing, nothing
+	if how == 'sub_slots':
+		return meta('KnobSlotsURI', (URI,), {'encoding': cs, '__slots__': ()}), nothing, nothing
+	if how == 'sub_late':
+		cls = meta('KnobLateURI', (URI,), {'__slots__': ()})
+		return cls, lambda: setattr(cls, 'encoding', cs), nothing
+	if how == 'assign':
+		old = vars(URI)['encoding']
+		URI.encoding = cs
+		return URI, nothing, lambda: setattr(URI, 'encoding', old)
+	if how == 'scheme':
+		HTTP = URI.SCHEMES[b'http']
+		had = 'encoding' in vars(HTTP)
+		old = vars(HTTP).get('encoding')
+		HTTP.encoding = cs
+		return URI, nothing, (lambda: setattr(HTTP, 'encoding', old)) if had else (lambda: delattr(HTTP, 'encoding'))
+	raise ValueError(how)
+
+
+def _w5_new():
+	return {'r': [], 'dec': [], 'eq': [], 'exc': [], 'tie': []}
+
+
+def _w5_call(o, label, mode, f, *a):
+	"""run f; an exception is a fact of the observation"""
+	try:
+		r = f(*a)
+	except Exception as exc:
+		o['exc'].append([label, type(exc).__name__, mode])
+		return None, False
+	o['exc'].append([label, None, mode])
+	return r, True
+
+
+def _w5_state(u):
+	"""everything a URI object holds and says, JSON-able"""
+	return {'tuple': [repr(x) for x in u.tuple], 'cls': type(u).__name__, 'bytes': _try(lambda: bytes(u).hex()), 'query': _try(_read_query, u), 'qs': u.query_string}
+
+
+def _w5_noq(base):
+	return base.partition(b'#')[0].partition(b'?')[0]
+
+
+def _observe_w5(c):
+	o = _w5_new()
+	via = c['via']
+	f = {'knob': _w5_obs_knob, 'knob.text': _w5_obs_knob_text, 'body.knob': _w5_obs_body_knob, 'alias.arg': _w5_obs_alias_arg, 'alias.obj': _w5_obs_alias_obj, 'types.pairs': _w5_obs_types_pairs,
+		'types.octets': _w5_obs_types_octets, 'types.text': _w5_obs_types_text, 'refuse': _w5_obs_refuse, 'order': _w5_obs_order, 'calls': _w5_obs_calls}[via]
+	f(c, o)
+	return o
+
+
+def _w5_obs_knob(c, o):
+	cs, ps = c['cs'], [tuple(p) for p in c['ps']]
+	base = c['base'].encode('ascii')
+	ref = _ref_form(ps, cs, c['pol'], c['seed'])
+	cls, late, restore = _w5_knob(c['how'], cs)
+	try:
+		st = c['set']
+		if st in ('init', 'str'):
+			late()
+			u = cls(_w5_noq(base) + b'?' + ref) if st == 'init' else cls((_w5_noq(base) + b'?' + ref).decode('ascii'))
+		else:
+			u = cls(base)
+			late()
+			if st == 'set':
+				u.query = ps
+			elif st == 'setdict':
+				u.query = dict(ps)
+			elif st == 'gen':
+				u.query = (p for p in ps)
+			elif st == 'setqs':
+				u.query_string = ref.decode('ascii')
+			elif st == 'parse':
+				u.parse(_w5_noq(base) + b'?' + ref)
+		o['eff'] = [u.encoding, type(u).encoding]
+		o['qs'] = u.query_string
+		o['r'].append(['the query read back', _read_query(u), 'ps'])
+		wire = bytes(u)
+		o['wire'] = wire.hex()
+		o['r'].append(['the query of the composed URI parsed by the same class', _read_query(cls(wire)), 'ps'])
+		o['r'].append(['the query of a copy (same class)', _read_query(cls(u)), 'ps'])
+		o['r'].append(['the query read a second time', _read_query(u), 'ps'])
+		if ps:
+			o['eq'].append(['the query in the composed URI and the query_string attribute', wire.partition(b'#')[0].partition(b'?')[2].hex(), u.query_string.encode('utf-8').hex()])
+		try:
+			e = u.query_string.encode('ascii')
+			o['dec'].append(['the query_string attribute', e.hex(), cs, 'ps'])
+			o['tie'].append([True, cs, 'ps', e.hex(), o['r'][0][1]] + (['dec'] if st == 'setqs' else []))   # (query_string = ...: not written by the implementation's encoder)
+		except UnicodeEncodeError:
+			o['eq'].append(['the query_string attribute is ASCII', ascii(u.query_string), 'ASCII'])
+	finally:
+		restore()
+
+
+def _w5_obs_knob_text(c, o):
+	from httoop.exceptions import InvalidURI
+	Percent = _impl()[0]
+	cs = c['cs']
+	cls, late, restore = _w5_knob(c['how'], cs)
+	try:
+		u = cls(c['base'].encode('ascii'))
+		late()
+		for t in c['texts']:
+			for sname in ('QUERY', 'UNRESERVED'):
+				q = u.quote(t, getattr(Percent, sname))
+				try:
+					back = u.unquote(q)
+				except InvalidURI:
+					back = {'err': 'invalid'}
+				o['eq'].append(['unquote(quote(%r, Percent.%s)) of the object (quoted %r)' % (t, sname, q), back, t])
+				o['dec'].append(['quote(%r, Percent.%s) of the object' % (t, sname), q.hex(), cs, 'text:' + t])
+	finally:
+		restore()
+
+
+def _w5_form_mt(cs):
+	return 'application/x-www-form-urlencoded; charset=%s' % (cs,)
+
+
+def _w5_obs_body_knob(c, o):
+	from httoop import Body
+	cs, ps, ps2, how = c['cs'], [tuple(p) for p in c['ps']], [tuple(p) for p in c['ps2']], c['how']
+	if how == 'ctor':
+		b = Body(mimetype=_w5_form_mt(cs))
+	elif how == 'encoding':
+		b = Body(mimetype='application/x-www-form-urlencoded')
+		b.encoding = cs
+	elif how == 'mimetype':
+		b = Body()
+		b.mimetype = _w5_form_mt(cs)
+	else:   # 'late': content first (another charset), the charset afterwards
+		b = Body(mimetype=_w5_form_mt('UTF-8'))
+		b.encode([('first', 'früh')])
+		b.encoding = cs
+	b.encode(ps)
+	e = bytes(b)
+	o['dec'].append(['the body content', e.hex(), cs, 'ps'])
+	back = _try(lambda: [list(p) for p in b.decode()])
+	o['r'].append(['decode() of the same body', back, 'ps'])
+	o['r'].append(['decode(content) of a new body of the media type', _try(lambda: [list(p) for p in Body(mimetype=_w5_form_mt(cs)).decode(e)]), 'ps'])
+	o['tie'].append([False, cs, 'ps', e.hex(), back])
+	ref = _ref_form(ps, cs, ('plain', 'lower', 'mixed', 'all')[len(ps) % 4], len(e))
+	o['r'].append(['Body(content of another sender, mimetype).decode()', _try(lambda: [list(p) for p in Body(ref, mimetype=_w5_form_mt(cs)).decode()]), 'ps'])
+	o['r'].append(['Body(bytearray content, mimetype=bytes).decode()', _try(lambda: [list(p) for p in Body(bytearray(ref), mimetype=_w5_form_mt(cs).encode('ascii')).decode()]), 'ps'])
+	b.encode(ps2)
+	o['dec'].append(['the body content after a second encode()', bytes(b).hex(), cs, 'ps2'])
+	o['r'].append(['decode() after a second encode()', _try(lambda: [list(p) for p in b.decode()]), 'ps2'])
+	o['eq'].append(['the charset of the body', _try(lambda: __import__('codecs').lookup(b.encoding).name), __import__('codecs').lookup(cs).name])
+
+
+def _w5_mutate(arg):
+	"""change the argument object in place, the way a caller who reuses it would"""
+	if isinstance(arg, dict):
+		first = next(iter(arg))
+		arg[first] = 'changed'
+		arg['zz'] = 'zz'
+		arg.pop(first)
+	else:
+		if arg and isinstance(arg[0], list):
+			arg[0][1] += '!'
+			arg[-1][0] = 'renamed'
+		arg.append(('zz', 'zz'))
+		arg.reverse()
+		del arg[0]
+
+
+def _w5_spoil(r):
+	"""what a caller can do to a result: nothing if it is a tuple of tuples"""
+	for f in (lambda: r.append(('zz', 'zz')), lambda: r.reverse(), lambda: r.__setitem__(0, ('zz', 'zz')), lambda: r[0].__setitem__(1, 'zz'), lambda: r.clear()):
+		_try(f)
+
+
+def _w5_obs_alias_arg(c, o):
+	import copy
+	from httoop import URI, Body
+	Percent, Form, QS = _impl()
+	cs, ps2 = c['cs'], [tuple(p) for p in c['ps2']]
+	arg = _w5_container(c['cont'], c['ps'])
+	snap = copy.deepcopy(arg)
+	entry = c['entry']
+	if entry == 'uri':
+		a, b = URI(b'/p'), URI(b'http://h/q?x=y')
+		a.query = arg
+		o['eq'].append(['the argument object after the first object took it', repr(arg), repr(snap)])
+		b.query = arg
+		o['eq'].append(['the argument object after the second object took it', repr(arg), repr(snap)])
+		o['r'].append(['first object', _read_query(a), 'ps'])
+		_w5_mutate(arg)
+		o['r'].append(['first object after the argument object was changed', _read_query(a), 'ps'])
+		o['r'].append(['second object after the argument object was changed', _read_query(b), 'ps'])
+		b.query = ps2
+		o['r'].append(['first object after the second was set to other pairs', _read_query(a), 'ps'])
+		o['r'].append(['second object', _read_query(b), 'ps2'])
+		o['dec'].append(['query_string of the first object', a.query_string.encode('utf-8').hex(), 'UTF-8', 'ps'])
+		_w5_spoil(_try(lambda: a.query))
+		o['r'].append(['first object after the caller tried to change the pairs it had handed out', _read_query(a), 'ps'])
+		f = URI(b'/p')
+		f.query = [tuple(p) for p in c['ps']]
+		o['eq'].append(['first object and a new object holding the same pairs', _w5_state(a), _w5_state(f)])
+	elif entry in ('form', 'qs'):
+		codec = QS if entry == 'qs' else Form
+		e1 = codec.encode(arg, cs)
+		o['eq'].append(['the argument object after encode()', repr(arg), repr(snap)])
+		e2 = codec.encode(arg, cs)
+		_w5_mutate(arg)
+		e3 = codec.encode(snap, cs)
+		o['eq'].append(['encode() of the same argument object twice', e1.hex(), e2.hex()])
+		o['eq'].append(['encode() of an equal object after the first was changed', e1.hex(), e3.hex()])
+		o['dec'].append(['encode()', e1.hex(), cs, 'ps'])
+		back = _try(lambda: [list(p) for p in codec.decode(e1, cs)])
+		o['r'].append(['decode(encode())', back, 'ps'])
+		_w5_spoil(_try(codec.decode, e1, cs))
+		o['r'].append(['decode() of the same octets after the caller tried to change the pairs the first decode() had handed out', _try(lambda: [list(p) for p in codec.decode(e1, cs)]), 'ps'])
+		o['tie'].append([entry == 'qs', cs, 'ps', e1.hex(), back])
+	else:
+		b1, b2 = Body(mimetype=_w5_form_mt(cs)), Body(mimetype=_w5_form_mt(cs))
+		b1.encode(arg)
+		o['eq'].append(['the argument object after Body.encode()', repr(arg), repr(snap)])
+		b2.encode(arg)
+		w1 = bytes(b1)
+		_w5_mutate(arg)
+		o['eq'].append(['the content of the first body after the argument object was changed', bytes(b1).hex(), w1.hex()])
+		o['eq'].append(['the content of the second body', bytes(b2).hex(), w1.hex()])
+		b2.encode(ps2)
+		o['eq'].append(['the content of the first body after the second body encoded other pairs', bytes(b1).hex(), w1.hex()])
+		o['dec'].append(['the content of the first body', w1.hex(), cs, 'ps'])
+		o['dec'].append(['the content of the second body', bytes(b2).hex(), cs, 'ps2'])
+		o['r'].append(['decode(content) of a new body', _try(lambda: [list(p) for p in Body(mimetype=_w5_form_mt(cs)).decode(w1)]), 'ps'])
+
+
+def _w5_obs_alias_obj(c, o):
+	import copy
+	import pickle
+	from httoop import URI
+	ps, ps2, ps3 = ([tuple(p) for p in c[key]] for key in ('ps', 'ps2', 'ps3'))
+	base = c['base'].encode('ascii')
+
+	def make():
+		x = URI(base)
+		x.query = ps
+		return x
+	a = make()
+	before = _w5_state(a)
+	build = c['build']
+	try:
+		if build == 'uri':
+			b = URI(a)
+		elif build == 'tuple':
+			b = URI(a.tuple)
+		elif build == 'dict':
+			b = URI(a.dict)
+		elif build == 'copy':
+			b = copy.copy(a)
+		elif build == 'deepcopy':
+			b = copy.deepcopy(a)
+		elif build == 'pickle':
+			b = pickle.loads(pickle.dumps(a))
+		elif build == 'bytes':
+			b = URI(bytes(a))
+		else:
+			b = a.join(b'')
+	except Exception as exc:   # (a way of copying that the class does not offer for this reference is not a matter of the statement)
+		o['skip'] = 'build: %s' % type(exc).__name__
+		return
+	if build != 'join':
+		o['r'].append(['the copy', _read_query(b), 'ps'])
+	mut = c['mut']
+	if mut == 'query':
+		b.query = ps2
+	elif mut == 'qs':
+		b.query_string = _ref_form(ps2, 'UTF-8', 'plain', 1).decode('ascii')
+	elif mut == 'parse':
+		b.parse(b'/other?' + _ref_form(ps2, 'UTF-8', 'lower', 2))
+	elif mut == 'normalize':
+		b.query = ps2
+		_try(b.normalize)
+	elif mut == 'dictmut':
+		d, t = a.dict, list(a.tuple)
+		d['query_string'] = 'zz=1'
+		d.clear()
+		t[6] = 'zz=1'
+		b.query = ps2
+	else:
+		b.query = ps2
+		b.path, b.fragment = '/elsewhere', 'g'
+		_try(setattr, b, 'host', 'other')
+	o['r'].append(['the copy after it was changed', _read_query(b), 'ps2'])
+	o['r'].append(['the original after the copy was changed', _read_query(a), 'ps'])
+	o['eq'].append(['the original after the copy was changed, and before', _w5_state(a), before])
+	o['eq'].append(['the original after the copy was changed, and a new object', _w5_state(a), _w5_state(make())])
+	a.query = ps3
+	o['r'].append(['the original set to other pairs', _read_query(a), 'ps3'])
+	o['r'].append(['the copy after the original was set to other pairs', _read_query(b), 'ps2'])
+	o['dec'].append(['query_string of the copy', b.query_string.encode('utf-8').hex(), 'UTF-8', 'ps2'])
+
+
+def _w5_obs_types_pairs(c, o):
+	from httoop import URI, Body
+	Percent, Form, QS = _impl()
+	cs, entry, cont = c['cs'], c['entry'], c['cont']
+	tps = [tuple(p) for p in c['ps']]
+	mk = lambda: _w5_container(cont, c['ps'])   # noqa: E731
+	if entry in ('form', 'qs'):
+		codec = QS if entry == 'qs' else Form
+		e, ok = _w5_call(o, '%s.encode(<%s>)' % (codec.__name__, cont), 'must-accept', lambda: codec.encode(mk(), cs))
+		ref = codec.encode(tps, cs)
+	elif entry in ('uri', 'uri.knob'):
+		cls, late, restore = _w5_knob('sub_slots' if entry == 'uri.knob' else 'default', cs)
+
+		def setq(data):
+			u = cls(b'/p?old=1')
+			u.query = data
+			return u.query_string.encode('ascii')
+		e, ok = _w5_call(o, 'URI.query = <%s>' % cont, 'must-accept', setq, mk())
+		ref = setq(tps)
+	else:
+		def enc(data):
+			b = Body(mimetype=_w5_form_mt(cs))
+			if entry == 'body':
+				b.encode(data)
+			else:
+				b.iterencode([data])
+			return bytes(b)
+		e, ok = _w5_call(o, 'Body.%s(<%s>)' % ('encode' if entry == 'body' else 'iterencode', cont), 'must-accept', enc, mk())
+		ref = enc(tps)
+	if ok:
+		o['dec'].append(['what the call wrote', e.hex(), cs, 'ps'])
+		o['eq'].append(['what the call wrote, and what it writes for a list of tuples', e.hex(), ref.hex()])
+		o['tie'].append([entry in ('qs', 'uri', 'uri.knob'), cs, 'ps', e.hex(), None])
+
+
+def _w5_conv(ty, d):
+	if ty == 'bytes':
+		return bytes(d)
+	if ty == 'bytearray':
+		return bytearray(d)
+	if ty == 'memoryview':
+		return memoryview(bytes(d))
+	raise ValueError(ty)
+
+
+def _w5_obs_types_octets(c, o):
+	from httoop import URI
+	Percent = _impl()[0]
+	ty, d, safe = c['ty'], bytes.fromhex(c['d']), _safe(c['safe'])
+	q, ok = _w5_call(o, 'Percent.quote(<%s>, safe)' % ty, 'must-accept', lambda: Percent.quote(_w5_conv(ty, d), safe))
+	if ok:
+		o['eq'].append(['type of the result of quote', type(q).__name__, 'bytes'])
+		o['q1'] = bytes(q).hex()
+	q, ok = _w5_call(o, 'Percent.quote(octets, <%s>)' % ty, 'must-accept', lambda: Percent.quote(d, _w5_conv(ty, safe)))
+	if ok:
+		o['q2'] = bytes(q).hex()
+	e = _ref_quote(d, c['pol'], c['seed'])
+	o['e'] = e.hex()
+	# decoders are annotated `bytes`; on the pinned tree bytearray works unless an escape is present (unhashable key), memoryview never: a refusal by type is accepted, a different answer is not
+	u, ok = _w5_call(o, 'Percent.unquote(<%s>)' % ty, 'must-accept' if ty == 'bytes' else 'may-refuse', lambda: Percent.unquote(_w5_conv(ty, e)))
+	if ok:
+		o['u1'] = bytes(u).hex()
+	t, ok = _w5_call(o, 'URI().unquote(<%s>)' % ty, 'must-accept', lambda: URI().unquote(_w5_conv(ty, _ref_quote(d.decode('latin-1').encode('utf-8'), c['pol'], c['seed']))))
+	if ok:
+		o['u2'] = t
+
+
+def _w5_obs_types_text(c, o):
+	from httoop import URI
+	Percent, Form, QS = _impl()
+	ty, t = c['ty'], c['t']
+	ps = [tuple(p) for p in c['ps']]
+	if ty in ('str', 'strsub', 'objstr'):
+		conv = {'str': str, 'strsub': _W5Str, 'objstr': _W5Obj}[ty]
+		q, ok = _w5_call(o, 'URI().quote(<%s>, Percent.QUERY)' % ty, 'must-accept', lambda: URI().quote(conv(t), Percent.QUERY))
+		if ok:
+			o['dec'].append(['URI().quote(text)', q.hex(), 'UTF-8', 'text:' + t])
+		if ty != 'objstr':
+			for codec in (Form, QS):
+				q, ok = _w5_call(o, '%s.quote(<%s>)' % (codec.__name__, ty), 'must-accept', lambda: codec.quote(conv(t), 'UTF-8'))
+				if ok:
+					o['dec'].append(['%s.quote(text)' % codec.__name__, q.hex(), 'UTF-8', 'text:' + t])
+		ref = _ref_form(ps, 'UTF-8', c['pol'], c['seed']).decode('ascii')
+		if ty != 'objstr':
+			def setqs():
+				u = URI(b'/p')
+				u.query_string = conv(ref)
+				return _read_query(u)
+			r, ok = _w5_call(o, 'URI.query_string = <%s>' % ty, 'must-accept', setqs)
+			if ok:
+				o['r'].append(['the query after query_string = <%s>' % ty, r, 'ps'])
+			r, ok = _w5_call(o, 'URI(<%s>)' % ty, 'must-accept', lambda: _read_query(URI(conv('/p?' + ref))))
+			if ok:
+				o['r'].append(['the query of URI(<%s>)' % ty, r, 'ps'])
+	else:
+		e = _ref_form(ps, 'UTF-8', c['pol'], c['seed'])
+		mode = 'must-accept' if ty == 'bytes' else 'may-refuse'
+		for codec in (Form, QS):
+			r, ok = _w5_call(o, '%s.decode(<%s>)' % (codec.__name__, ty), mode, lambda: [list(p) for p in codec.decode(_w5_conv(ty, e), 'UTF-8')])
+			if ok:
+				o['r'].append(['%s.decode(<%s>)' % (codec.__name__, ty), r, 'ps'])
+
+		def setqs():
+			u = URI(b'/p')
+			u.query_string = _w5_conv(ty, e)
+			return _read_query(u)
+		r, ok = _w5_call(o, 'URI.query_string = <%s>' % ty, mode, setqs)
+		if ok:
+			o['r'].append(['the query after query_string = <%s>' % ty, r, 'ps'])
+		r, ok = _w5_call(o, 'URI(<%s>)' % ty, mode, lambda: _read_query(URI(_w5_conv(ty, b'/p?' + e))))
+		if ok:
+			o['r'].append(['the query of URI(<%s>)' % ty, r, 'ps'])
+
+
+def _w5_bad_value(bad, cs, ps):
+	"""an argument the pair encoders have to refuse"""
+	tps = [tuple(p) for p in ps]
+	un = '\ud800' if _is_utf8(cs) else ('€中Жé' if cs != 'cp1252' else '中Ж')
+	if bad == 'unencodable':
+		return tps[:1] + [('n', 'a' + un)]
+	if bad == 'int':
+		return 5
+	if bad == 'none':
+		return None
+	if bad == 'single':
+		return tps + [('a',)]
+	if bad == 'triple':
+		return [('a', 'b', 'c')] + tps
+	if bad == 'noneval':
+		return tps + [('a', None)]
+	if bad == 'intval':
+		return [('a', 1)]
+	if bad == 'bytespair':
+		return tps + [(b'a', b'b')]
+	if bad == 'midway':
+		return [('ok', 'v'), ('zz', 'zz'), (un, 'x'), ('never', 'seen')]
+	if bad == 'genraise':
+		def g():
+			yield ('ok', 'v')
+			raise RuntimeError('the caller\'s generator failed')
+		return g()
+	if bad == 'str':
+		return 'a=b&c=d'
+	raise ValueError(bad)
+
+
+def _w5_obs_refuse(c, o):
+	from httoop import URI, Body
+	Percent, Form, QS = _impl()
+	on, bad, cs = c['on'], c['bad'], c['cs']
+	ps, ps2 = [tuple(p) for p in c['ps']], [tuple(p) for p in c['ps2']]
+	if on.startswith('uri'):
+		cls, late, restore = _w5_knob('sub_slots' if on == 'uri.knob' else 'default', cs)
+		base = c['base'].encode('ascii')
+
+		def make():
+			x = cls(base)
+			x.query = ps
+			return x
+		u, twin = make(), make()
+		before = _w5_state(u)
+		if bad == 'qs.int':
+			f = lambda: setattr(u, 'query_string', 5)   # noqa: E731
+		elif bad == 'qs.list':
+			f = lambda: setattr(u, 'query_string', ['a=b'])   # noqa: E731
+		elif bad == 'parse.octets':    # (no ':' in the refused reference: see the note in the report - parse() assigns the scheme before it validates)
+			f = lambda: u.parse(b'/other?a=%ff%fe\xe4' if _is_utf8(cs) else b'/other?a=\xe4')   # noqa: E731
+		elif bad == 'parse.space':
+			f = lambda: u.parse(b'/o ther?a=b')   # noqa: E731
+		elif bad == 'parse.charset':
+			f = lambda: u.parse(b'/other?a=%ff%fe&b=c' if _is_utf8(cs) else b'/other?a=%81%8d&b=c' if cs == 'cp1252' else b'/other?a\x80')   # noqa: E731
+		else:
+			f = lambda: setattr(u, 'query', _w5_bad_value(bad, cs, ps2))   # noqa: E731
+		_, accepted = _w5_call(o, 'the refused call (%s)' % bad, 'refusal', f)
+		if accepted:
+			return
+		o['eq'].append(['the object after the refused call, and before', _w5_state(u), before])
+		o['eq'].append(['the object after the refused call, and an object that never saw it', _w5_state(u), _w5_state(twin)])
+		o['r'].append(['the query after the refused call', _read_query(u), 'ps'])
+		u.query = ps2
+		twin.query = ps2
+		o['r'].append(['the query set after the refused call', _read_query(u), 'ps2'])
+		o['eq'].append(['the object set to other pairs after the refused call, and an object that never saw it', _w5_state(u), _w5_state(twin)])
+		o['dec'].append(['query_string after the refused call', u.query_string.encode('utf-8').hex(), cs, 'ps2'])
+	elif on == 'percent':
+		d = b''.join(a + b for a, b in _enc_pairs(ps, cs))
+		q1 = {name: Percent.quote(d, getattr(Percent, name)).hex() for name in SAFE_NAMES}
+		u1 = Percent.unquote(_ref_quote(d, 'mixed', 5)).hex()
+		for label, f in (('quote(text)', lambda: Percent.quote('a b', Percent.QUERY)), ('quote(octets, 5)', lambda: Percent.quote(d, 5)), ('quote(None)', lambda: Percent.quote(None)), ('unquote(5)', lambda: Percent.unquote(5)),
+				('unquote(text)', lambda: Percent.unquote('%41%zz')), ('quote(octets, text)', lambda: Percent.quote(d, 'abc')), ('HEX_MAP[text]', lambda: Percent.HEX_MAP['41']), ('unquote(list)', lambda: Percent.unquote([b'%41']))):
+			_w5_call(o, 'the refused call (%s)' % label, 'refusal', f)
+		o['eq'].append(['quote() of the same octets under every named set after the refused calls, and before', {name: Percent.quote(d, getattr(Percent, name)).hex() for name in SAFE_NAMES}, q1])
+		o['eq'].append(['unquote() after the refused calls, and before', Percent.unquote(_ref_quote(d, 'mixed', 5)).hex(), u1])
+		o['eq'].append(['unquote() of the octets another sender escaped', u1, d.hex()])
+	elif on in ('form', 'qs'):
+		codec = QS if on == 'qs' else Form
+		e1 = codec.encode(ps, cs)
+		r1 = _try(lambda: [list(p) for p in codec.decode(e1, cs)])
+		if bad == 'dec.charset':
+			f = lambda: codec.decode(b'a=%ff%fe&b=%C3' if _is_utf8(cs) else b'a=%98%81' if cs == 'koi8-r' else b'a=%81%8d', 'ascii' if cs == 'ISO8859-1' else cs)   # noqa: E731
+		elif bad == 'dec.type':
+			f = lambda: codec.decode(e1.decode('ascii'), cs)   # noqa: E731
+		else:
+			f = lambda: codec.encode(_w5_bad_value(bad, cs, ps2), cs)   # noqa: E731
+		_, accepted = _w5_call(o, 'the refused call (%s)' % bad, 'refusal', f)
+		e2 = codec.encode(ps, cs)
+		o['eq'].append(['encode() of the same pairs after the refused call, and before', e2.hex(), e1.hex()])
+		o['eq'].append(['decode() of the same octets after the refused call, and before', _try(lambda: [list(p) for p in codec.decode(e1, cs)]), r1])
+		o['dec'].append(['encode() after the refused call', e2.hex(), cs, 'ps'])
+		o['r'].append(['decode(encode()) after the refused call', _try(lambda: [list(p) for p in codec.decode(e2, cs)]), 'ps'])
+		o['tie'].append([on == 'qs', cs, 'ps', e2.hex(), r1])
+	else:
+		b, twin = Body(mimetype=_w5_form_mt(cs)), Body(mimetype=_w5_form_mt(cs))
+		b.encode(ps)
+		twin.encode(ps)
+		w = bytes(b)
+		if bad == 'dec.charset':
+			return
+		if bad == 'dec.type':
+			f = lambda: b.decode(5)   # noqa: E731
+		else:
+			f = lambda: b.encode(_w5_bad_value(bad, cs, ps2))   # noqa: E731
+		_, accepted = _w5_call(o, 'the refused call (%s)' % bad, 'refusal', f)
+		if accepted:
+			return
+		o['eq'].append(['the content after the refused call, and before', bytes(b).hex(), w.hex()])
+		o['eq'].append(['the media type after the refused call', _try(lambda: bytes(b.mimetype).hex()), _try(lambda: bytes(twin.mimetype).hex())])
+		o['r'].append(['decode() after the refused call', _try(lambda: [list(p) for p in b.decode()]), 'ps'])
+		b.encode(ps2)
+		twin.encode(ps2)
+		o['eq'].append(['the content encoded after the refused call, and that of a body that never saw it', bytes(b).hex(), bytes(twin).hex()])
+		o['dec'].append(['the content encoded after the refused call', bytes(b).hex(), cs, 'ps2'])
+
+
+def _w5_obs_order(c, o):
+	import collections
+	from httoop import URI, Body
+	Percent, Form, QS = _impl()
+	cs, path = c['cs'], c['path']
+	ps = [tuple(p) for p in c['ps']]
+	if path == 'codec':
+		for codec in (Form, QS):
+			for name, data in (('list', ps), ('generator', (p for p in ps)), ('reversed(reversed)', reversed(list(reversed(ps))))) + ((('dict', dict(ps)), ('OrderedDict', collections.OrderedDict(ps))) if c['unique'] else ()):
+				e = codec.encode(data, cs)
+				o['dec'].append(['%s.encode(<%s>)' % (codec.__name__, name), e.hex(), cs, 'ps'])
+				o['r'].append(['%s.decode(encode(<%s>))' % (codec.__name__, name), _try(lambda: [list(p) for p in codec.decode(e, cs)]), 'ps'])
+			es = list(codec.iterencode([ps, list(reversed(ps)), ps], cs))
+			o['dec'].append(['%s.iterencode, first part' % codec.__name__, es[0].hex(), cs, 'ps'])
+			o['dec'].append(['%s.iterencode, third part' % codec.__name__, es[2].hex(), cs, 'ps'])
+		return
+	if path == 'body':
+		b = Body(mimetype=_w5_form_mt(cs))
+		b.encode(ps)
+		o['dec'].append(['Body content', bytes(b).hex(), cs, 'ps'])
+		o['r'].append(['Body.decode()', _try(lambda: [list(p) for p in b.decode()]), 'ps'])
+		o['r'].append(['Body.data after decode()', _try(lambda: [list(p) for p in b.data]), 'ps'])
+		return
+	cls, late, restore = _w5_knob('assign' if path == 'uri.knob' else 'default', cs)
+	try:
+		base = c['base'].encode('ascii')
+		u = cls(base)
+		u.query = ps
+		o['dec'].append(['query_string', u.query_string.encode('utf-8').hex(), cs, 'ps'])
+		o['r'].append(['the query', _read_query(u), 'ps'])
+		wire = bytes(u)
+		o['dec'].append(['the query in the composed URI', wire.partition(b'#')[0].partition(b'?')[2].hex(), cs, 'ps'])
+		v = cls(wire)
+		o['r'].append(['composed and parsed', _read_query(v), 'ps'])
+		_try(v.normalize)
+		o['r'].append(['composed, parsed and normalized', _read_query(v), 'ps'])
+		w = cls(u)
+		_try(w.normalize)
+		o['r'].append(['a normalized copy', _read_query(w), 'ps'])
+		_try(w.abspath)
+		o['r'].append(['after abspath()', _read_query(w), 'ps'])
+		for rel in (b'', b'#frag', b'other', b'../up'):
+			o['r'].append(['join(%r) of the object' % rel, _try(lambda: _read_query(u.join(rel))), 'ps' if rel in (b'', b'#frag') else 'none'])
+		ref = _ref_form(ps, cs, 'plain', 7)
+		o['r'].append(['a base URI joined with a reference that carries the query', _try(lambda: _read_query(cls(b'http://h/a/b?x=1').join(b'../c?' + ref))), 'ps'])
+		o['r'].append(['URI(tuple)', _try(lambda: _read_query(cls(u.tuple))), 'ps'])
+		o['r'].append(['URI(dict)', _try(lambda: _read_query(cls(u.dict))), 'ps'])
+		o['eq'].append(['== with the parsed composed URI', repr(_try(lambda: u == cls(wire))), 'True'])
+		if c['unique']:
+			for name, data in (('dict', dict(ps)), ('OrderedDict', collections.OrderedDict(ps)), ('items()', dict(ps).items())):
+				x = cls(base)
+				x.query = data
+				o['r'].append(['the query set from <%s>' % name, _read_query(x), 'ps'])
+		o['tie'].append([True, cs, 'ps', u.query_string.encode('utf-8').hex(), o['r'][0][1]])
+	finally:
+		restore()
+
+
+def _w5_obs_calls(c, o):
+	from httoop import URI, Body
+	cs = c['cs']
+	ps, ps2 = [tuple(p) for p in c['ps']], [tuple(p) for p in c['ps2']]
+	cls, late, restore = _w5_knob('default' if _is_utf8(cs) else 'assign', cs)
+	try:
+		# the assignments a caller makes, in several orders: the final object must not depend on the order (the scheme comes first or last or in between: it changes the class)
+		ops = [('query', ps), ('scheme', 'http'), ('host', 'example.com'), ('path', '/' + c['seg']), ('fragment', c['frag']), ('username', 'u')]
+		states = []
+		for perm in [list(range(6))] + c['perms']:
+			u = cls()
+			for j in perm:
+				if ops[j][0] == 'query' and perm.index(j) % 2:
+					u.query = ps2    # set once to something else first
+				setattr(u, ops[j][0], ops[j][1])
+			states.append(_w5_state(u))
+			o['r'].append(['assignments in the order %s' % '/'.join(ops[j][0] for j in perm), _read_query(u), 'ps'])
+		for perm, st in zip(c['perms'], states[1:]):
+			o['eq'].append(['assignments in the order %s, and in the order %s' % ('/'.join(ops[j][0] for j in perm), '/'.join(x[0] for x in ops)), st, states[0]])
+		qs = states[0]['qs']
+		o['dec'].append(['query_string', qs.encode('utf-8').hex(), cs, 'ps'])
+		# constructor argument / dict / tuple / attribute / parse
+		wire = bytes.fromhex(states[0]['bytes']) if isinstance(states[0]['bytes'], str) else b''
+		kw = dict(scheme='http', host='example.com', path='/' + c['seg'], fragment=c['frag'], username='u', query_string=qs)
+		for name, f in (('keyword arguments', lambda: cls(**kw)), ('a dict', lambda: cls(dict(kw))), ('the composed octets', lambda: cls(wire)), ('the composed text', lambda: cls(wire.decode('ascii'))),
+				('parse() on an object that held other pairs', lambda: _w5_reparse(cls, ps2, wire))):
+			x = _try(f)
+			o['r'].append(['built from %s' % name, _try(_read_query, x), 'ps'])
+			o['eq'].append(['built from %s, and by assignments' % name, _try(lambda: bytes(x).hex()), states[0]['bytes']])
+	finally:
+		restore()
+	# the form body: charset before content / content before charset (re-encoded) / constructor
+	b1 = Body(mimetype=_w5_form_mt(cs))
+	b1.encode(ps)
+	b2 = Body(mimetype='application/x-www-form-urlencoded')
+	b2.encoding = cs
+	b2.encode(ps)
+	b3 = Body(mimetype='application/x-www-form-urlencoded; charset=UTF-8')
+	b3.encode(ps2)
+	b3.encoding = cs
+	b3.encode(ps)
+	b4 = Body()
+	b4.mimetype = _w5_form_mt(cs)
+	b4.encode(ps)
+	o['dec'].append(['Body(mimetype=...; charset).encode()', bytes(b1).hex(), cs, 'ps'])
+	for name, b in (('encoding assigned, then encode()', b2), ('encode() under UTF-8, encoding assigned, encode() again', b3), ('mimetype assigned, then encode()', b4)):
+		o['eq'].append(['Body: %s, and charset given to the constructor' % name, bytes(b).hex(), bytes(b1).hex()])
+		o['r'].append(['Body: %s: decode()' % name, _try(lambda: [list(p) for p in b.decode()]), 'ps'])
+
+
+def _w5_reparse(cls, ps2, wire):
+	x = cls(b'/p')
+	x.query = ps2
+	x.parse(wire)
+	return x
+
+
+def _w5_want(c, key):
+	if key == 'none':
+		return []
+	return [list(p) for p in c[key]]
+
+
+def _ref_parse(e, cs):
+	"""application/x-www-form-urlencoded read with the standard library only: fields between '&' (empty ones skipped), the name ends at the first '=', '+' is a blank,
+	%HH is an octet, the octets are text in the charset"""
+	import urllib.parse
+	out = []
+	for f in bytes(e).split(b'&'):
+		if f:
+			n, _, v = f.partition(b'=')
+			out.append([urllib.parse.unquote_to_bytes(x.replace(b'+', b' ')).decode(cs or 'ISO8859-1') for x in (n, v)])
+	return out
+
+
+def _oracle_w5(c, o):
+	what = '%s %s' % (c['via'], {a: b for a, b in sorted(c.items()) if a not in ('k', 'via', 'seed', 'pol', 'perms')})
+	if 'skip' in o:
+		return None
+	if not all(key in o for key in ('r', 'dec', 'eq', 'exc')):
+		return '%s: unexpected outcome %s' % (what, o)
+	for label, exc, mode in o['exc']:
+		if exc is not None and (mode == 'must-accept' or (mode == 'may-refuse' and exc not in ('TypeError', 'AttributeError'))):
+			return '%s: %s raised %s' % (what, label, exc)
+	if c['via'] == 'knob':
+		import codecs
+		if 'eff' not in o or any(codecs.lookup(x).name != codecs.lookup(c['cs']).name for x in o['eff']):
+			return '%s: the object does not have the configured encoding: %r' % (what, o.get('eff'))
+	for label, got, key in o['r']:
+		if got != _w5_want(c, key):
+			return '%s: %s is %r, expected the pairs %r%s' % (what, label, got, _w5_want(c, key), ' (query string %r)' % o['qs'] if 'qs' in o else '')
+	for label, hx, cs, key in o['dec']:
+		e = bytes.fromhex(hx)
+		if not _only_safe(e, set(REF_QUERY)):
+			return '%s: %s is %r: something else than safe characters and two-digit escapes' % (what, label, e)
+		if key.startswith('text:'):
+			import urllib.parse
+			try:
+				got = urllib.parse.unquote_to_bytes(e).decode(cs)
+			except UnicodeDecodeError:
+				got = {'err': 'unicode'}
+			if got != key[5:]:
+				return '%s: %s is %r, which is %r in %s, not the text %r' % (what, label, e, got, cs, key[5:])
+			continue
+		try:
+			got = _ref_parse(e, cs)
+		except UnicodeDecodeError:
+			got = {'err': 'unicode'}
+		want = _w5_want(c, key)
+		if got != want:
+			return '%s: %s is %r, which another reader (charset %s) reads as %r, not as the pairs %r' % (what, label, e, cs, got, want)
+	for label, a, b in o['eq']:
+		if a != b:
+			return '%s: %s differ: %r / %r' % (what, label, a, b)
+	if c['via'] == 'types.octets':
+		import urllib.parse
+		d = bytes.fromhex(c['d'])
+		safe = set(_safe(c['safe'])) - {0x25}
+		for key in ('q1', 'q2'):
+			if key in o and (urllib.parse.unquote_to_bytes(bytes.fromhex(o[key])) != d or not _only_safe(bytes.fromhex(o[key]), safe)):
+				return '%s: quote with a %s argument gave %r for %r' % (what, c['ty'], bytes.fromhex(o[key]), d)
+		if 'u1' in o and o['u1'] != c['d']:
+			return '%s: unquote(<%s> %r) gave %r, expected %r' % (what, c['ty'], bytes.fromhex(o['e']), bytes.fromhex(o['u1']), d)
+		if 'u2' in o and o['u2'] != d.decode('latin-1'):
+			return '%s: URI().unquote(<%s>) gave %r, expected %r' % (what, c['ty'], o['u2'], d.decode('latin-1'))
+	return None
+
+
+def _coq_w5(c, o):
+	if 'skip' in o or not o.get('tie'):
+		return None
+	terms = []
+	for qs, cs, key, hx, back, *only in o['tie'][:1]:
+		if isinstance(back, str):    # (the name of an exception: the oracle's matter)
+			continue
+		t = _tie_terms(qs, cs, _w5_want(c, key), bytes.fromhex(hx), back, True)
+		if t:
+			terms += t[1:] if only else t
+	return terms or None
+
 
 LEVEL_TEXT = ('Machine-checked Coq theorems, for every safe set and every octet string of any length: unquote(quote d) = d, the encoded string is '
 	'safe octets and %HH escapes only (two-digit model variant); form/query pair lists round-trip for every charset codec with dec(enc t)=t; '
